@@ -453,7 +453,16 @@ func (t Table) Lookup(req *http.Request, trace string, pick picker, match matche
 				tc := *target
 				target = &tc
 				target.BuildRedirectURL(req.URL) // build redirect url and cache in target
-				if target.RedirectURL.Scheme == req.Header.Get("X-Forwarded-Proto") &&
+				// the scheme of the request is the one a proxy in front of
+				// fabio names, or else the one of the connection itself
+				scheme := req.Header.Get("X-Forwarded-Proto")
+				if scheme == "" {
+					scheme = "http"
+					if req.TLS != nil {
+						scheme = "https"
+					}
+				}
+				if target.RedirectURL.Scheme == scheme &&
 					target.RedirectURL.Host == req.Host &&
 					target.RedirectURL.Path == req.URL.Path {
 					log.Print("[INFO] Skipping redirect with same scheme, host and path")
